@@ -26,6 +26,8 @@ CORPUS = [
     ("reserved-names", "int f(int found, int x){ found = true; while (x > 0) { x = x + found; found = false; } }"),
     ("reserved-names-finite", "int f(int found, int x, int y){ found = false; x = y + found; if (x > y) { found = true; } }"),
     ("duplicate-declarations", "int f(int x, int y){ if (x > 0) { int t; y = x + y; } else { int t; y = x; } int x; }"),
+    ("return-in-the-middle", "int f(int x,int y){ x = x + y; return x; y = y + x; x = y * y; }"),
+    ("return-then-loop", "int f(int x,int y,int z){ y = x + z; return y; while (z > 0) { x = x + y; } }"),
     ("backward-chain-for", "int f(int a,int b,int c,int d,int t,int i,int n){ for (i = 0; i < n; i++) { if (t > 0) { d = c * a; } else { d = b; } if (t > 1) { c = b + b; } else { c = a; } b = a + a; } }"),
 ]
 
